@@ -12,9 +12,10 @@ from mc.vloop import World
 
 RX = re.compile(rb"\r?\n")
 READS = [None, ("rb", 5, False), ("rb", 4, True), ("ri", 5, False), ("ri", 4, True), ("ru", b"\n"),
-         ("rur",), ("ruc",)]
-LATER = [("rb", 2, False), ("rb", 3, True), ("ri", 2, False), ("ru", b"\n"), ("rur",), ("ruc",)]
-CAUSES_CONNECTED = ["close", "close_exc", "eof", "reset_read", "eio_read", "epipe_write", "eio_write"]
+         ("rur",), ("ruc",), ("rur_mb", 2), ("ru_mb", 2)]
+LATER = [("rb", 2, False), ("rb", 3, True), ("ri", 2, False), ("ru", b"\n"), ("rur",), ("ruc",), ("rb", 50, False),
+         ("ri", 50, False)]
+CAUSES_CONNECTED = ["close", "close_exc", "eof", "reset_read", "eio_read", "epipe_write", "eio_write", "flush_then_epipe"]
 CAUSES_CONNECTING = ["close", "close_exc", "so_error"]
 DATA = [b"", b"x", b"xy\nzzzzzz", b"xxxxa\n\n"]     # the last one is used with read_chunk_size=4
 MODES = ["none", "separate", "together"]
@@ -31,6 +32,10 @@ def satisfy(kind, avail, at_close=False):
         if partial:
             return min(n, len(avail)) if avail else None
         return n if len(avail) >= n else None
+    if kind[0] in ("rur_mb", "ru_mb"):
+        # delimiter read with max_bytes: satisfied only if the match ends within max_bytes
+        m = RX.search(avail) if kind[0] == "rur_mb" else re.search(b"\n", avail)
+        return m.end() if m and m.end() <= kind[1] else None
     if kind[0] == "ru":
         i = avail.find(kind[1])
         return i + len(kind[1]) if i >= 0 else None
@@ -47,6 +52,10 @@ def issue(s, kind):
     if kind[0] == "ri":
         buf = bytearray(kind[1])
         return s.read_into(buf, partial=kind[2]), buf
+    if kind[0] == "rur_mb":
+        return s.read_until_regex(RX.pattern, max_bytes=kind[1]), None
+    if kind[0] == "ru_mb":
+        return s.read_until(b"\n", max_bytes=kind[1]), None
     if kind[0] == "ru":
         return s.read_until(kind[1]), None
     if kind[0] == "rur":
@@ -126,6 +135,12 @@ def run(case):
             exc = OSError(errno.EPIPE if cause == "epipe_write" else errno.EIO, cause)
             sock.send_script.append(exc)
             sock.unblock()
+        elif cause == "flush_then_epipe":
+            # one send() takes exactly the first queued write, the next send() of the same pass fails
+            exc = OSError(errno.EPIPE, cause)
+            sock.send_script.append(20)
+            sock.send_script.append(exc)
+            sock.unblock()
         elif cause == "so_error":
             sock.connect_state = errno.ECONNREFUSED
         w.pump()
@@ -200,6 +215,8 @@ def judge(case, obs):
     def err_ok(real):
         if obs.get("needed_explicit_close"):
             return True
+        if rkind is not None and rkind[0].endswith("_mb") and type(real).__name__ == "UnsatisfiableReadError":
+            return True         # the stream closed itself first: the max_bytes read could not be satisfied
         if any_oserror:
             return isinstance(real, OSError)
         return real is exc
@@ -246,6 +263,8 @@ def judge(case, obs):
         if obs["counts"][name] != 1:
             bad.append(("%s:done-callbacks-%d" % (base, obs["counts"][name]),
                         "%s future completed %d times (%r)" % (name, obs["counts"][name], got)))
+        if name == "write0" and cause == "flush_then_epipe" and got[0] == "ok":
+            continue        # its bytes were taken by the transport before the error: success is as good as StreamClosedError
         if base in ("write", "connect"):
             if got[0] != "fail" or got[1] != "StreamClosedError":
                 bad.append(("%s:%s-at-close" % (base, got[0]), "%s future: %r" % (name, got)))
@@ -291,6 +310,86 @@ def judge(case, obs):
     return bad
 
 
+def run_ssl(side, cause, also_write):
+    """An SSLIOStream whose handshake has not completed (the peer is silent) is closed locally: the handshake /
+    connect future and a queued write must settle.  Real socketpair + ssl objects, no I/O events are needed."""
+    import socket
+    import ssl
+    from tornado.iostream import SSLIOStream, StreamClosedError
+    with World() as w:
+        a, b = socket.socketpair()
+        try:
+            a.setblocking(False)
+            ctx = ssl.SSLContext(ssl.PROTOCOL_TLS_CLIENT if side != "server" else ssl.PROTOCOL_TLS_SERVER)
+            if side != "server":
+                ctx.check_hostname = False
+                ctx.verify_mode = ssl.CERT_NONE
+            counts = {}
+
+            def track(name, f):
+                counts[name] = 0
+                f.add_done_callback(lambda fut: counts.__setitem__(name, counts[name] + 1))
+                return f
+            cb = []
+            if side == "client-connect":
+                # connect() on a plain socket with server_hostname: TCP connect is immediate on a socketpair
+                st_ = SSLIOStream(a, ssl_options=ctx)
+                futs = {"handshake": track("handshake", st_.wait_for_handshake())}
+            else:
+                sa = ctx.wrap_socket(a, server_side=(side == "server"), do_handshake_on_connect=False)
+                st_ = SSLIOStream(sa)
+                futs = {"handshake": track("handshake", st_.wait_for_handshake())}
+            st_.set_close_callback(lambda: cb.append(1))
+            if also_write:
+                futs["write"] = track("write", st_.write(b"queued"))
+            w.pump()
+            exc = None
+            if cause == "close":
+                st_.close()
+            else:
+                exc = Boom("b")
+                st_.close(exc_info=exc)
+            w.pump()
+            out = {}
+            for name, f in futs.items():
+                if not f.done():
+                    out[name] = ("pending",)
+                elif f.cancelled():
+                    out[name] = ("cancelled",)
+                elif f.exception() is not None:
+                    e = f.exception()
+                    out[name] = ("fail", type(e).__name__, getattr(e, "real_error", "n/a") is exc, e is exc)
+                else:
+                    out[name] = ("ok",)
+            return {"futs": out, "counts": counts, "cb": len(cb),
+                    "loop_errors": [str(c.get("message"))[:80] for c in w.loop_errors()]}
+        finally:
+            for x in (a, b):
+                try:
+                    x.close()
+                except OSError:
+                    pass
+
+
+def judge_ssl(o):
+    bad = []
+    for name, got in o["futs"].items():
+        if name == "handshake" and got[0] == "fail" and got[3]:
+            pass        # the handshake future reports the close cause itself (documented in the code: it "expects
+            #             to see the real exception")
+        elif got[0] != "fail" or got[1] != "StreamClosedError":
+            bad.append(("ssl:%s:%s-at-close" % (name, got[0]), "%s future after close(): %r" % (name, got)))
+        elif not got[2]:
+            bad.append(("ssl:%s:real_error" % name, "%s future does not carry the close cause" % name))
+        if o["counts"][name] != 1:
+            bad.append(("ssl:%s:done-callbacks-%d" % (name, o["counts"][name]), "completed %d times" % o["counts"][name]))
+    if o["cb"] != 1:
+        bad.append(("ssl:close-callback:%d-times" % o["cb"], "close callback ran %d times" % o["cb"]))
+    if o["loop_errors"]:
+        bad.append(("ssl:loop-exception", repr(o["loop_errors"][:1])))
+    return bad
+
+
 def same_error(real, exc):
     if real == "n/a":
         return False
@@ -310,6 +409,8 @@ def all_cases():
                                     continue
                                 if cause in ("epipe_write", "eio_write") and nw == 0:
                                     continue
+                                if cause == "flush_then_epipe" and nw < 2:
+                                    continue
                                 for li in range(len(LATER)):
                                     yield (connecting, pre, ri, nw, di, mode, cause, li)
                                 # one of the pending operations was cancelled by its caller before the close
@@ -328,7 +429,9 @@ class C13(Check):
     rule = ("full product: stream connecting or connected x pre-buffered data x pending read kind (8) x 0-2 "
             "writes blocked by EAGAIN x close cause {close(), close(exc_info), EOF, ECONNRESET on read, EIO on "
             "read, EPIPE on write, EIO on write, SO_ERROR on connect} x data {none, partial, satisfying} "
-            "arriving before or together with the cause x read issued after the close (6 kinds); plus the same with one of "
+            "arriving before or together with the cause x read issued after the close (8 kinds); also: first queued write "
+            "taken by the transport and the next send failing, delimiter reads with max_bytes that cannot be satisfied, "
+            "an SSLIOStream (client / server side) closed locally while its handshake is pending; plus the same with one of "
             "the pending futures (read / first write / connect) cancelled by its caller before the cause; "
             "state = one execution; non-trivial = executions with >= 1 pending operation at the close")
     claim = ("For every close point in the product the real IOStream must complete every pending future exactly "
@@ -342,6 +445,22 @@ class C13(Check):
         return list(range(32))
 
     def run_partition(self, part, tier, st):
+        if part == 0:
+            for side in ("client", "server"):
+                for cause in ("close", "close_exc"):
+                    for also_write in (False, True):
+                        try:
+                            o = run_ssl(side, cause, also_write)
+                        except Exception as e:
+                            st.violation("harness-crash:ssl:" + type(e).__name__, "ssl case %r crashed: %r" % ((side, cause, also_write), e),
+                                         {"ssl": [side, cause, also_write]})
+                            continue
+                        st.ev()
+                        st.state(("ssl", side, cause, also_write))
+                        st.nontriv(("ssl", side, cause, also_write))
+                        for sig, msg in judge_ssl(o):
+                            st.violation(sig, "SSLIOStream (%s side) with the handshake pending, %s, queued write=%r: %s"
+                                         % (side, cause, also_write, msg), {"ssl": [side, cause, also_write]})
         for i, case in enumerate(all_cases()):
             if i % 32 != part:
                 continue
@@ -366,6 +485,9 @@ class C13(Check):
                 st.violation(sig, "%s: %s" % (describe(case), msg), {"case": case})
 
     def replay(self, case):
+        if "ssl" in case:
+            o = run_ssl(*case["ssl"])
+            return "%r\nverdict %r" % (o, judge_ssl(o))
         c = tuple(case["case"])
         obs = run(c)
         return "%s\nobserved %r\nverdict %r" % (describe(c), {k: v for k, v in obs.items()}, judge(c, obs))
